@@ -9,6 +9,14 @@ wt = f"/tmp/seed{rnd}_{pid}"
 mech = "; ".join(f"{m['name']} ({m['where']})" for m in p["anchors"].get("mechanism", []))
 count, countset = ("THREE", "{1, 2, 3}") if rnd else ("TWO", "{1, 2}")
 extra = ""
+if rnd == "5":
+    extra = (" In this round look for three things only: (1) two or more public calls on the SAME object where a later call silently depends on an "
+             "earlier one (state, caches, registers or defaults left behind by the first call; objects handed out by a getter and modified later); "
+             "(2) the smallest valid inputs (one variable, one equation, one period, no shocks, no parameters, one variant given as a list of one, an "
+             "empty plan or an empty selection) and the largest ordinary ones (ten or more variables, lags or leads of four, three variants); (3) the same "
+             "request expressed through two equivalent argument forms (a name or a tuple of names, a Span or a tuple of periods, positional or keyword, "
+             "string or enum) that should give identical results. Stay away from the plain 'loop over variants uses the first variant' slip and from "
+             "caches of the forward expansion of the solution. Each change must still break the property as stated.")
 if rnd == "4":
     extra = (" In this round stay away from the central numerical routine and from the plain 'loop over variants uses the first variant' slip. Look at: "
              "(1) the public helpers users call right before or after the entry points named under 'Observed at' (building input data from the object, "
